@@ -269,3 +269,34 @@ Lemma map_nth_seq {A B} (f : A -> B) (l : list A) d :
 Proof.
   induction l as [|x l IH]; [reflexivity|]. simpl. f_equal. rewrite <- seq_shift, map_map. exact IH.
 Qed.
+
+(* a loop that appends one value per element *)
+Lemma py_for_append {X} (g : X -> Z) (body : list Z -> X -> res (list Z)) xs : forall acc,
+  (forall st x, In x xs -> body st x = Ok (st ++ [g x])) -> py_for xs acc body = Ok (acc ++ map g xs).
+Proof.
+  induction xs as [|x r IH]; intros acc H; simpl.
+  - rewrite app_nil_r. reflexivity.
+  - rewrite (H acc x) by (left; reflexivity). simpl. rewrite IH by (intros st y Hy; apply H; right; exact Hy).
+    rewrite <- app_assoc. reflexivity.
+Qed.
+
+Lemma diffs_pos l : incr l -> Forall (fun d => 0 < d) (diffs l).
+Proof.
+  induction l as [|x [|y r] IH]; intro H; simpl; try constructor.
+  - inversion H as [|? ? Ht Hlt]; subst. inversion Hlt; subst. lia.
+  - apply IH. inversion H; assumption.
+Qed.
+Lemma fold_min_pos x l : 0 < x -> Forall (fun d => 0 < d) l -> 0 < fold_right Z.min x l.
+Proof. intros Hx H. induction H as [|d l Hd Hl IH]; simpl; [exact Hx|lia]. Qed.
+Lemma fold_max_nonneg x l : 0 <= x -> Forall (fun d => 0 <= d) l -> fold_right Z.max x l = fold_right Z.max 0 (x :: l).
+Proof.
+  intros Hx H. induction H as [|d l Hd Hl IH]; simpl; [lia|]. simpl in IH. rewrite IH. lia.
+Qed.
+
+(* a loop whose body cannot raise is a fold *)
+Lemma py_for_total {S X} (f : S -> X -> S) (body : S -> X -> res S) xs : forall st,
+  (forall st x, In x xs -> body st x = Ok (f st x)) -> py_for xs st body = Ok (fold_left f xs st).
+Proof.
+  induction xs as [|x r IH]; intros st H; simpl; [reflexivity|].
+  rewrite (H st x) by (left; reflexivity). simpl. apply IH. intros st' y Hy. apply H. right. exact Hy.
+Qed.
